@@ -51,12 +51,13 @@ def worker_init(ctx, tier):
     pass
 
 
-def observe(cls, rec):
+def observe(cls, rec, target=True):
     e = cls(rec)
     try:
         if not e.is_valid():
             return ("rejected",)
-        return ("accepted", str(e.overhang_start()).upper(), str(e.overhang_end()).upper(), str(e.target_sequence().seq).upper())
+        # (a plain SeqRecord cannot be rotated, so the library cannot cut its target out: verdict and overhangs only)
+        return ("accepted", str(e.overhang_start()).upper(), str(e.overhang_end()).upper(), str(e.target_sequence().seq).upper() if target else None)
     except Exception as ex:
         return ("raised", type(ex).__name__)
 
@@ -65,12 +66,19 @@ def compare_typing(ctx, cls, text, label, k):
     from Bio.Seq import Seq
     from moclo.record import CircularRecord
 
+    from Bio.SeqRecord import SeqRecord
+
     rec = CircularRecord(Seq(text), "r")
-    a = observe(cls, rec)
-    for how, rrec in (("string", CircularRecord(Seq(rc(text)), "r")), ("api", rec.reverse_complement())):
+    a0 = observe(cls, rec)
+    # a plasmid as Bio.SeqIO hands it over (a plain SeqRecord whose annotations say circular) and what Biopython's own
+    # reverse_complement() makes of it (annotations are dropped by default)
+    plain = SeqRecord(Seq(text), "r", annotations={"topology": "circular", "molecule_type": "DNA"})
+    for how, fwd, rrec in (("string", a0, CircularRecord(Seq(rc(text)), "r")), ("api", a0, rec.reverse_complement()),
+                           ("plain-seqrecord", None, plain.reverse_complement())):
         ctx.count("evaluations")
         ctx.count("c12_typing_pairs")
-        b = observe(cls, rrec)
+        a = observe(cls, plain, target=False) if fwd is None else fwd
+        b = observe(cls, rrec, target=fwd is not None)
         wit = dict(cls=cls.__name__, cutter=str(cls.cutter), text=text if len(text) < 600 else text[:600] + "...", how=how, forward=[str(x)[:60] for x in a], reverse=[str(x)[:60] for x in b])
         if a[0] != b[0]:
             ctx.violation("strand-asymmetric-verdict:%s->%s" % (a[0], b[0]), "%s %s a record but %s its reverse complement (%s)" % (
@@ -83,7 +91,7 @@ def compare_typing(ctx, cls, text, label, k):
         if (b[1], b[2]) != (rc(a[2]), rc(a[1])):
             ctx.violation("strand-asymmetric-overhangs", "%s: overhangs %s/%s on the record, %s/%s on its reverse complement (expected %s/%s)" % (
                 cls.__name__, a[1], a[2], b[1], b[2], rc(a[2]), rc(a[1])), **wit)
-        elif b[3][k:] != rc(a[3][k:]):
+        elif a[3] is not None and b[3][k:] != rc(a[3][k:]):
             ctx.violation("strand-asymmetric-target", "%s: target body on the reverse complement is not the reverse complement of the target body (%d vs %d nt)" % (
                 cls.__name__, len(b[3]) - k, len(a[3]) - k), **wit)
 
